@@ -6,6 +6,7 @@ CONSTANTS
   MaxCalls = 2
   MaxRead = 2
   Greedy = FALSE
+  CreditFirst = TRUE
   RecvPolicy = "any"
 INVARIANTS TypeOK NoSleepWithWindow F1 F1c F2 SenderWithinWindow NoError F3
 CHECK_DEADLOCK FALSE
